@@ -119,6 +119,8 @@ type c18Cfg struct {
 	targetStr string
 	// the previous-version field is a plain string ("" = none) instead of a *string
 	prevIsString bool
+	// nodes downstream of a branch the graph could not correlate with the path (set per analysis)
+	shaky map[*c18Node]bool
 }
 
 type c18Rules struct{ Order, Complete, Paths, Fresh, Leftover, Prev, NilRet string }
